@@ -1117,6 +1117,11 @@ func (c *c19Case) maxNum() int64 {
 }
 
 func (c *c19Case) blockAccepted(nd *c19Node, evs []*c19Ev, was map[string]bool, via string) {
+	// the count limit of the property's anchor, from the harness's own arithmetic: a tenth of the block size
+	// budget divided by the maximal size of one piece of evidence (484 bytes)
+	if limit := c.params.Block.MaxBytes / 10 / 484; int64(len(evs)) > limit {
+		c.o.Fail(c.step, "accepted-over-count-limit", fmt.Sprintf("node=%d via=%s evidence=%d limit=%d block-max-bytes=%d", nd.k, via, len(evs), limit, c.params.Block.MaxBytes))
+	}
 	seen := map[string]bool{}
 	for _, e := range evs {
 		k := c19Key2(e)
